@@ -267,6 +267,13 @@ func specLkAfter(kind, lk int) int {
 //@   at call update#5: after ghost $lost = ite(result, $lost+wide(old(state).extra())+wide(n)-wide(state.extra()), $lost)
 //@   modifies c.ptr, $ledger, $lost, $rd, $lk
 
+//@ contract (*Counter).Inc
+//@   requires c.file != nil
+//@   requires $rd == 0 && $lk == 0
+//@   ensures $ledger+$lost == old($ledger)+old($lost)+1
+//@   ensures $rd == 0 && $lk == 0
+//@   modifies c.ptr, $ledger, $lost, $rd, $lk
+
 //@ contract (*Counter).releaseReader
 //@   requires c.file != nil
 //@   requires $rd == 1 && $lk == 0
